@@ -1,6 +1,8 @@
 """C11 MDL (V2000/V3000) and MRV files: write then read preserves the record (clauses with symbolic content)."""
 import io
 
+from vlib.minisym import s_and, s_or
+
 PROPERTY = 'C11'
 
 META = {
@@ -13,7 +15,8 @@ META = {
     'bounds': {
         'quick': 'records of <= 3 atoms with charge -4..4, isotope, radical flag, atom number (1, 999, 1000), bond order '
                  '(1,2,3,4,8) as solver variables (realised when the writer formats them: solver-enumerated finite domain), '
-                 'through all five writers and their readers; reactions with role counts 0..2; title and one metadata item; '
+                 'in first, middle or last position, through all five writers and their readers; reactions with role counts 0..2 '
+                 'and a wedged molecule in a solver-chosen role; title and one metadata item; '
                  'two stereo seeds with hand-set 2-D coordinates through every format',
         'thorough': 'role counts 0..3, two variable atoms at a time',
     },
@@ -66,18 +69,24 @@ def h_record(V, fmt, falsify=False):
     rad = bool(V.bool('radical'))
     num = V.choice('number', [1, 999, 1000])
     order = V.choice('order', [1, 2, 3, 4, 8])
+    pos = V.int('position', 0, 2)
+    # the decorated atom may be first, middle or last in the record; large numbers and non-single bonds with it first only
+    V.assume(s_or(pos == 0, s_and(num == 1, order == 1)))
+    pos = int(pos)
     m = MoleculeContainer()
-    m.add_atom(cls(iso, charge=charge, is_radical=rad), num, _skip_calculation=True)
-    m.add_atom(pt.C(), num + 1, _skip_calculation=True)
-    m.add_atom(pt.O(), num + 2, _skip_calculation=True)
+    others = [pt.C(), pt.O()]
+    for k in range(3):
+        m.add_atom(cls(iso, charge=charge, is_radical=rad) if k == pos else others.pop(0), num + k, _skip_calculation=True)
     m.add_bond(num, num + 1, Bond(order), _skip_calculation=True)
     m.add_bond(num + 1, num + 2, Bond(1), _skip_calculation=True)
+    num_first, num = num, num + pos
     m.calc_labels()
     for n in m._atoms:
         m.calc_implicit(n)
     m.name = 'title'
     m.meta['key'] = 'value'
-    info = {'format': fmt, 'element': el, 'isotope': iso, 'charge': charge, 'radical': rad, 'number': num, 'order': order}
+    info = {'format': fmt, 'element': el, 'isotope': iso, 'charge': charge, 'radical': rad, 'number': num_first, 'order': order,
+            'position': pos}
     try:
         out, data = write_read(fmt, m)
     except ValueError as e:
@@ -108,6 +117,13 @@ def h_reaction(V, fmt, maxn=2):
     V.assume(sum(counts) > 0)
     it = iter(POOL)
     roles = [[chython.smiles(next(it)) for _ in range(k)] for k in counts]
+    # one molecule with wedges (2-D coordinates) in a solver-chosen role
+    srole = V.choice('stereo_role', [None, 0, 1, 2])
+    if srole is not None:
+        sm = chython.smiles('C[C@H](N)O')
+        for n, (x, y) in STEREO['C[C@H](N)O'].items():
+            sm.atom(n).x, sm.atom(n).y = x, y
+        roles[srole].append(sm)
     # distinct atom numbers across the reaction (mapping numbers)
     k = 1
     for ms in roles:
@@ -119,7 +135,7 @@ def h_reaction(V, fmt, maxn=2):
     r.name = 'rxn'
     r.meta['k'] = 'v'
     out, data = write_read(fmt, r)
-    info = {'format': fmt, 'roles': counts}
+    info = {'format': fmt, 'roles': counts, 'stereo_role': srole}
     V.prove(len(out) == 1 and isinstance(out[0], ReactionContainer), 'one reaction record comes back', info)
     if len(out) != 1 or not isinstance(out[0], ReactionContainer):
         return
